@@ -223,6 +223,12 @@ def run(tier, seed):
                 if not was_inside or (-bound < xs[-1] < bound):
                     bad.append(dict(failed="a trajectory ends by the box rule only after having been inside the box and having left it (trajectory %d ended at x=%r after %d snapshots, ever inside: %r)"
                                     % (t._v["id"], xs[-1], len(xs), was_inside), case=info)); break
+            # the weights the batch reports (one trace per trajectory) are the trajectories' weights
+            stale = [(t._v["id"], float(t.weight), float(t.tracer.weight)) for t in inst.trajs if float(t.tracer.weight) != float(t.weight)]
+            tw = sum(float(tt.weight) for tt in r.traces); base = sum(float(rt._v["base0"]) for rt in roots)
+            if stale or len(r.traces) != len(inst.trajs) or abs(tw - base) > 1e-12:
+                bad.append(dict(failed="the weights of the traces of one batch are the weights of its trajectories and sum to the initial weight (sum over traces %r, initial %r, %d traces for %d trajectories; trajectory/trace weight mismatches (id, trajectory, trace): %r)"
+                                       % (tw, base, len(r.traces), len(inst.trajs), stale[:4]), case=info))
             res.count("box-small" if bound == 1.0 else "box-wide")
             if len(roots) > 1: res.count("stack-object-reused")
             out = np.array(r.outcome())
